@@ -95,6 +95,13 @@ def step (s : DState) (line : String) : DState × String :=
         (s, kind ++ " " ++ toHex r.2.1 ++ " " ++ toHex r.2.2 ++ " " ++ cnt)
       | none => (s, "split-error")
     | none => (s, "bad-op")
+  | ["opendisk", x] =>
+    match ofHex? x with
+    | some x =>
+      match decodeNode 0 (20 * x.length + 20) (some (H x)) x with
+      | some n => (s, shapeL n ++ " g0")
+      | none => (s, "decode-panic")
+    | none => (s, "bad-op")
   | ["dbstate"] =>
     (s, "mem=" ++ keyDigest (s.ndb.mem.map (·.1)) ++ " disk=" ++ keyDigest (s.ndb.disk.map (·.1)))
   | ["node", h] =>
